@@ -118,8 +118,8 @@ TIE = {
     "C04": "message.rs code tables (both directions)", "C05": "message.rs code tables (both directions)",
     "C19": "sign_type.rs from_bytes / dimensions / to_bytes tables and the virtual sign's configuration digest",
     "C16": "response_expected", "C18": "delay_after_send / delay_after_receive", "C20": "configure_port setters and the two constructor timeouts",
-    "C12": "VirtualSign dispatch and per-handler state tables", "C13": "VirtualSign dispatch and per-handler state tables",
-    "C14": "VirtualSign dispatch and per-handler state tables",
+    "C12": "VirtualSign dispatch and per-handler state tables, and every method of impl VirtualSign compiled statement by statement into a state-passing function (processMessage = vstep, bus loop = busStep)", "C13": "VirtualSign dispatch and per-handler state tables, and every method of impl VirtualSign compiled statement by statement into a state-passing function (processMessage = vstep, bus loop = busStep)",
+    "C14": "VirtualSign dispatch and per-handler state tables, and every method of impl VirtualSign compiled statement by statement into a state-passing function (processMessage = vstep, bus loop = busStep)",
     "C17": "message.rs code tables, the serial classification tables and the controller (src/sign.rs compiled statement by statement into an interaction tree)",
     "C08": "the controller (src/sign.rs compiled statement by statement into an interaction tree) and the VirtualSign tables",
     "C09": "the controller (src/sign.rs compiled statement by statement into an interaction tree)",
